@@ -435,6 +435,35 @@ func mutants(w *warm, base hist.TxSpec, rng *rand.Rand) []mutant {
 		})
 		olvmPayload("olvm-payload-empty-access-list", func(p *olvmact.Transaction) { p.AccessList = &ethtypes.AccessList{} })
 	}
+	// a transfer out of an account keyed the Ethereum way, "signed" with that key over a 32-byte piece of the
+	// transaction only (its tail; its head): no signature over part of a transaction authorises the transaction
+	if base.Kind == "SEND" && len(w.w.EthUsers) > 0 {
+		e := w.w.EthUsers[0]
+		if k, err := ethcrypto.ToECDSA(w.w.EthKeys[e.Addr.String()]); err == nil {
+			for _, part := range []string{"tail", "head", "tail-then-amount-changed"} {
+				st := parse()
+				amount := "7"
+				st.RawTx = txb.Raw(txb.Send(e.Addr, other.Addr, "OLT", amount), txb.DefaultFee(), st.Memo+"/ethsecp-"+part)
+				rb := st.RawTx.RawBytes()
+				if len(rb) < 64 {
+					continue
+				}
+				piece := rb[len(rb)-32:]
+				if part == "head" {
+					piece = rb[:32]
+				}
+				sig, err := ethcrypto.Sign(piece, k)
+				if err != nil {
+					continue
+				}
+				if part == "tail-then-amount-changed" {
+					st.RawTx = txb.Raw(txb.Send(e.Addr, other.Addr, "OLT", "7000000"), txb.DefaultFee(), st.Memo+"/ethsecp-"+part)
+				}
+				st.Signatures = []action.Signature{{Signer: keys.PublicKey{KeyType: keys.ETHSECP, Data: ethcrypto.CompressPubkey(&k.PublicKey)}, Signed: sig}}
+				out = append(out, mutant{"ethsecp-key-signature-over-the-" + part + "-only", st.SignedBytes()})
+			}
+		}
+	}
 	add("key-algorithm-btcec", func(st *action.SignedTx) bool {
 		// btcec public key of the attacker with an arbitrary signature
 		if len(st.Signatures) == 0 || base.Kind == "OLVM" {
